@@ -70,9 +70,7 @@ def deriv1(ctx, prog, cfg):
            "forwards to %s(self, index)" % tgt, msg % (name, tgt))
     for name, tgt in ((CB + "nth_back", "get"), (CB + "nth_back_mut", "get_mut")):
         shapes.contains(ctx, "DERIV1", prog, name,
-                        [r"call <usize>::checked_sub\(\(\*self\)\.size, index\)",
-                         r"call <usize>::checked_sub\(.*checked_sub\(\(\*self\)\.size, index\).*, 1\)",
-                         r"call CircularBuffer::%s\(self, .*checked_sub\(.*checked_sub\(\(\*self\)\.size, index\).*, 1\).*\)" % tgt], cfg,
+                        [r"call CircularBuffer::%s\(self, .*checked_sub\(.*checked_sub\(\(\*self\)\.size, index\).*, 1\).*\)" % tgt], cfg,
                         "forwards to %s(self, size - index - 1) with checked subtraction" % tgt,
                         "`%s` no longer computes `size.checked_sub(index)?.checked_sub(1)?` and forwards it to `%s`" % (name, tgt),
                         forbidden=[r"saturating_sub", r"wrapping_sub", r" Sub\(\(\*self\)\.size, index\)"])
